@@ -126,6 +126,8 @@ class _StdApi:
                     opc=opc,
                     first_line=first_line,
                     current_offset=current_offset,
+                    # dis reports a line only where it changes
+                    dup_lines=False,
                 )
 
             def __iter__(self):
